@@ -18,6 +18,15 @@ CLAIMS = {
                  'exceptions. Totality over all inputs is not decided.',
         'technique': 'decorator/forwarding census + CFG gate rules + None-dereference (contradiction) rule + grammar-vs-table agreement (ast)',
     },
+    'C16': {
+        'level': 'Order: an inter-procedural may-analysis types expressions as ValueSet (identity-hashed) / set and marks sequences built by '
+                 'iterating them without a sort; every listed query method\'s return value and every first-wins de-duplication in jedi/api is '
+                 'checked against it. Reset: each query method resets the recursion bookkeeping before any inference (or delegates first to '
+                 'one that does). Switches: every temporary write to an InferenceState switch, predefined_names or the global settings module '
+                 'is PAIRed with its restore on all exits of the CFG. The definition sort key is total. Equality of result sets across '
+                 'processes is not decided. Seven genuine order dependences are recorded as known findings, three were repaired.',
+        'technique': 'ValueSet typing fixpoint + order-taint at API boundary + CFG must/pair rules (ast)',
+    },
     'C12': {
         'level': 'Whole-package inventory of code-execution sinks and host-state writers by resolved callee (every call site classified), '
                  'who-may-call on the one real importer chain, gate/flow on the safe-path filter of _load_builtin_module, undotted '
